@@ -111,6 +111,16 @@ var (
 	ixBig       = false
 )
 
+// usePrefixPartitions swaps the partition pools for names that are proper prefixes of one another with a next character
+// that sorts BELOW the '.' the library joins key parts with ('#', '-', ' ', '!'): "ORG#1" / "ORG#1#USER", "2024-01" /
+// "2024-01-15". Ordering by the joined text and ordering part by part disagree exactly there.
+func usePrefixPartitions() func() {
+	h, g := ixHashPool, ixGPool
+	ixHashPool = []string{"p", "p#q", "p-q"}
+	ixGPool = []string{"x", "x y", "x!"}
+	return func() { ixHashPool, ixGPool = h, g }
+}
+
 // useBigPools swaps the value pools of the shared table shape for "scaled" ones and returns the function that
 // restores the small pools (a worker runs its cases one after the other, so package-level pools are safe).
 // Scaled pools: 3 partitions (one with a 300-byte name), 40-260 sort keys (numeral-looking strings, strings
